@@ -40,6 +40,26 @@ Theorem c16_oversize_rejected : forall c m,
 Proof. exact oversize_rejected. Qed.
 Print Assumptions c16_oversize_rejected.
 
+(* With Producer.Interceptors: the size tested is the size AFTER the interceptor chain, and what is forwarded is the
+   intercepted message: a message grown over the limit is rejected, an oversized one shrunk to a legal size is accepted. *)
+Theorem c16_oversize_rejected_intercepted : forall c chain m,
+  let m' := intercept chain m in
+  snd (dispatcher_admit c chain m) = m' /\
+  (byte_size (msg_version c) m' > c_max_message_bytes c -> fst (dispatcher_admit c chain m) <> DForward) /\
+  (fst (dispatcher_admit c chain m) = DForward -> byte_size (msg_version c) m' <= c_max_message_bytes c) /\
+  (fst (dispatcher_admit c chain m) = DRejectTooLarge -> byte_size (msg_version c) m' > c_max_message_bytes c) /\
+  (byte_size (msg_version c) m' <= c_max_message_bytes c -> fst (dispatcher_admit c chain m) <> DRejectTooLarge).
+Proof. exact oversize_rejected_intercepted. Qed.
+Print Assumptions c16_oversize_rejected_intercepted.
+
+(* Whatever reaches the bridge is an intercepted message that passed the test on its intercepted size. *)
+Theorem c16_only_admitted_sent : forall c chain evs set k p m',
+  Forall (ev_ok (fun x => msg_wf x /\ admitted c chain x)) evs ->
+  In (Sent set) (snd (run c binit evs)) -> In (k, p) (s_parts set) -> In m' (ps_msgs p) ->
+  admitted c chain m' /\ byte_size (msg_version c) m' <= c_max_message_bytes c.
+Proof. exact only_admitted_sent. Qed.
+Print Assumptions c16_only_admitted_sent.
+
 (* ... and a worker fed with forwarded messages only never sends anything else. *)
 Theorem c16_only_forwarded_sent : forall c evs set k p m,
   Forall (ev_ok (fun m => msg_wf m /\ dispatcher_check c m = DForward)) evs ->
